@@ -287,7 +287,7 @@ def sched_run(prop, tier, seed, replay_path=None):
             for cls, msg in hist.check_run(r, pre, spec["classes"]):
                 fails.append({"kind": cls, "detail": msg, "found": True, "workload": rp["workload"], "schedule": r.sched, "pre": rp.get("pre", {})})
         if rc != 0:
-            fails.append({"kind": "crash", "detail": (err2 or "")[-800:], "found": True, "workload": rp["workload"], "schedule": rp.get("schedule", []), "pre": rp.get("pre", {})})
+            fails.append({"kind": "crash", "detail": vlib.crash_excerpt(err2), "found": True, "workload": rp["workload"], "schedule": rp.get("schedule", []), "pre": rp.get("pre", {})})
         return {"sched_evaluations": 1}, fails
     nwl = 96 if tier == "quick" else 1200
     runs = max(3, int((30 if tier == "quick" else 150) * spec.get("runs_scale", 1)))
@@ -332,7 +332,7 @@ def sched_run(prop, tier, seed, replay_path=None):
                         k, _, v = kv.partition("=")
                         res["mon"][k] = res["mon"].get(k, 0) + int(v)
         if rc != 0:
-            res["fails"].append(("crash", "scheddrv exit %d: %s" % (rc, (err2 or "")[-600:]), []))
+            res["fails"].append(("crash", "scheddrv exit %d: %s" % (rc, vlib.crash_excerpt(err2)), []))
         return res
 
     results = vlib.pmap(one, jobs)
@@ -443,7 +443,7 @@ def check_c14(tier, seed, replay_path=None):
                         k, _, v = kv.partition("=")
                         res["stats"][k] = int(v)
             if rc != 0:
-                res["fails"].append(("crash", (err2 or "")[-500:], [], True))
+                res["fails"].append(("crash", vlib.crash_excerpt(err2), [], True))
             return res
 
         if replay_path:
